@@ -51,10 +51,10 @@ Methods ==
     [name |-> "UploadThings", cs |-> TRUE, ss |-> FALSE, void |-> FALSE, dep |-> FALSE, flat |-> <<>>, auto |-> {}],
     [name |-> "ChatThings",  cs |-> TRUE,  ss |-> TRUE,  void |-> FALSE, dep |-> FALSE, flat |-> <<>>, auto |-> {}],
     [name |-> "CheckDep",    cs |-> FALSE, ss |-> FALSE, void |-> FALSE, dep |-> TRUE,
-       flat |-> IF DepEnumOffered THEN <<"name", "tags", "kind">> ELSE <<"name", "tags">>, auto |-> {}] }
+       flat |-> IF DepEnumOffered THEN <<"name", "tags", "kind">> ELSE <<"name", "tags">>, auto |-> {"request_id"}] }
 \* fields each request type actually has (the dependency-package request is smaller)
 Inv_FlatFirstOccurrence == FlatOf(<< <<"name", "tags", "count">>, <<"name", "count">>, <<"vals">> >>) = <<"name", "tags", "count", "vals">>
-HasField(m, f) == IF m.dep THEN f \in {"name", "tags", "labels", "count", "kind", "blob"} ELSE TRUE
+HasField(m, f) == IF m.dep THEN f \in {"name", "tags", "labels", "count", "kind", "blob", "request_id"} ELSE TRUE
 
 Forms == {"msg", "dict", "none", "kwargs", "both"}
 Transports == {"grpc", "grpc_asyncio", "rest"}
